@@ -649,7 +649,9 @@ func (idx *indexer) indexSince(txID uint64) error {
 
 			n := serializeIndexableEntry(b[:], txmd, e, kvmd)
 
-			idx._kvs[indexableEntries].K = targetKey
+			// targetKey may alias the key buffer of idx.tx, which is reused
+			// when reading the next transaction of the same bulk
+			idx._kvs[indexableEntries].K = append([]byte(nil), targetKey...)
 			idx._kvs[indexableEntries].V = b[:n]
 			idx._kvs[indexableEntries].T = txID + uint64(i)
 
